@@ -57,7 +57,13 @@ PARTIAL = ("Names with non-ASCII cased letters are outside the model (Base/Bytes
            "the registered spelling (liveness only: three probes 250 ms apart, two announcements one second apart within 1 s of "
            "the registration, questions answered), not by the correspondence. "
            "Proved for all histories of the daemon model without response datagrams and interface toggles: probe spacing on "
-           "the wire. Proved for all operation sequences of the registry machine and for single daemon steps: the other "
+           "the wire. Proved for every state of the daemon model, hence over all histories incl. response datagrams and "
+           "interface toggles: every packet register_service sends, every announcement add_interface makes and every "
+           "response the probing handler sends when probes complete has its RegisterResend queued for now + 1000 "
+           "(C07_*_queues_second_announcement), and no iteration leaves a due queue entry behind "
+           "(C07_no_overdue_queue_entry); that the second announcement is then SENT is not proved (it needs the service, "
+           "interface, registry and active records to be still there). Timer coverage of this layer: Props/C12Registry.v. "
+           "Proved for all operation sequences of the registry machine and for single daemon steps: the other "
            "clauses (see Props/C07.v). NOT proved as a theorem over histories: that chk_C07 accepts every run of the daemon "
            "model (three probes and the wait before every response, second announcement, wake-up requests); this is "
            "validated on every generated history by running the monitor on the model's own output as well. Exact times are "
